@@ -35,3 +35,8 @@ add("F27","C08","fixed","accepted-header-not-signed","PGP: a record whose STFS.S
 add("KF5","C01","open","root-name-differs",
     "the root directory reports its own name as \"/\" on the instance that created the tape and as \".\" after the index has been rebuilt from the tape (the rebuild stores the root under the sanitized name \"\")",
     ops=[{"k":"mkdir","p":"/a","m":0o755}], relax="root-name")
+add("F28","C18","fixed","sign-fails","a PGP pair generated with an empty password parsed but could neither sign ('signing key is encrypted') nor decrypt ('incorrect key')",
+    cfg_=PLAIN, params={"pw":0,"d0":0,"d1":1,"len":100}, sparams={"kind":"sig:pgp"}, commit="99ef6a5")
+addfile("KF6","C11","open","hang",
+    "a handle that has been read only partially keeps the drive and the read-side operation lock (its restore goroutine is parked in the pipe) until it is closed: any writing call of another caller then blocks while holding the filesystem lock, and the reader's own Close blocks on that lock - the whole instance deadlocks",
+    relax="nopartialreads")
